@@ -377,6 +377,10 @@ class Server(_Server_):
                 conn.close()
                 sys.exit(1)
 
+            # Do not keep the request and the reply (either may hold proxies) alive
+            # while waiting for this connection's next request.
+            request = args = kwds = msg = None
+
     def debug_info(self, c):
         with self.mutex:
             return [
